@@ -279,7 +279,7 @@ def cfg_C07(tier, rng):
                            dict(variant='api_reversed', twin=dict(rel='variant', kw=dict(variant='api', seed=3)))],
                  random=rd),
             dict(name='hashseed', charts=charts[:len(charts) // 3] + thin(gc.family_hist(rng, 24 if tier == QUICK else 300), rng, 9)
-                 + gc.family_nested(rng, 16 if tier == QUICK else 300)
+                 + gc.family_nested(rng, 16 if tier == QUICK else 300) + gc.family_deep_orth(rng, 12 if tier == QUICK else 100)
                  + [c for c in gc.family_f1(4) if 'deep' in c['kind']][:20],
                  consts=dict(MaxQ=1, MaxLevel=6 if tier == QUICK else 7),
                  variants=[dict(variant='api', pool='unicode')],
@@ -304,12 +304,13 @@ def cfg_C17r(tier, rng):
         ev = max(c['events'])
         c['trans'].append(gc.mk_trans(rng.choice(srcs), 0, ev))
         c['events'].append(ev + 1)
+    charts = [with_contracts([c], rng)[0] if i % 3 == 0 else c for i, c in enumerate(charts)]     # contracts follow too
     return dict(name='rename', charts=charts,
                 consts=dict(MaxQ=1, MaxLevel=5 if tier == QUICK else 7),
                 variants=[dict(variant='api', seed=6, twin=dict(rel='rename', kw=dict(rename=11))),
                           dict(variant='yaml', twin=dict(rel='rename', kw=dict(rename=12)))],
-                random=dict(count=100 if tier == QUICK else 1000, length=14,
-                            family=lambda r, kk: no_active(gc.family_f3(r, kk, nmin=5, nmax=9))))
+                random=dict(count=100 if tier == QUICK else 1000, length=14, pfail=0.15,
+                            family=lambda r, kk: no_active(gc.family_f3(r, kk, nmin=5, nmax=9, contracts=True))))
 
 
 def no_active(charts):
@@ -351,6 +352,7 @@ def cfg_C17c(tier, rng):
             t = dict(rng.choice(c['trans']))
             t['gk'], t['prio'] = 'oracle', t['prio'] + 1
             c['trans'].append(t)
+    charts = [with_contracts([c], rng)[0] if i % 3 == 1 else c for i, c in enumerate(charts)]
     return dict(name='copy', charts=no_active(charts),
                 consts=dict(MaxQ=1, MaxLevel=5 if tier == QUICK else 6),
                 variants=[dict(variant='api', seed=8, twin=dict(rel='copy', kw=dict(copy_into=True)))],
